@@ -121,10 +121,34 @@ static void run_regions() {
       report("regions.root-restart-reacts.m" + id, g_log == "x:P1 n:P2 ", "C03", "got=[" + g_log + "]"); }
   }
 }
+// ---- state-id numbering (C03: sources top-down, then targets, then remaining initial / explicitly created states), observed through
+// the introspection calls: the id reported for a region whose active state is X must be X's documented number ----
+TAG(NA) TAG(NB) TAG(NC) TAG(ND) TAG(NE) TAG(NF)
+struct f1{}; struct f2{}; struct f3{};
+struct Num_ : state_machine_def<Num_> {
+  typedef Sn<NA_t> NA; typedef Sn<NB_t> NB; typedef Sn<NC_t> NC; typedef Sn<ND_t> ND; typedef Sn<NE_t> NE;
+  typedef mpl::vector<NA,NE> initial_state;                           // NE: an initial state that no row mentions
+  struct transition_table : mpl::vector< Row<NB,f2,NC,none,none>, Row<NA,f1,NB,none,none>, Row<NC,f3,ND,none,none> > {};
+  template<class F,class Ev> void no_transition(Ev const&,F&,int){}
+};
+typedef BE<Num_> Num;
+static void run_numbering() {
+  // documented order: sources top-down NB=0 NA=1 NC=2, then
+  //   backmp11 (comment of generate_state_set_impl, and the wording of C03): target-only states ND=3, then remaining initial states NE=4
+  //   back / back11 (doc internals.adoc "Generated state ids": implicitly created states "will be added as a source at the end of the
+  //   transition table", i.e. they are numbered in the source pass): NE=3, then the target-only state ND=4
+  // Both are "the documented order" of the respective back-end; the numbers differ between back-ends, the configurations do not.
+  Num m; m.start(); int a0 = cur(m,0), e = cur(m,1);
+  m.process_event(f1()); int b = cur(m,0); m.process_event(f2()); int c = cur(m,0); m.process_event(f3()); int d = cur(m,0);
+  const int wantD = IS_MP11 ? 3 : 4, wantE = IS_MP11 ? 4 : 3;
+  report("ids.documented-numbering", b == 0 && a0 == 1 && c == 2 && d == wantD && e == wantE, "C03",
+         "NB=" + std::to_string(b) + " NA=" + std::to_string(a0) + " NC=" + std::to_string(c) + " ND=" + std::to_string(d) + " NE=" + std::to_string(e) + " (documented: 0 1 2 " + std::to_string(wantD) + " " + std::to_string(wantE) + ")");
+}
 int main(int argc, char** argv) {
   if (argc > 1) g_only = argv[1];
   run<msm::active_state_switch_after_entry>(); run<msm::active_state_switch_before_transition>();
   run<msm::active_state_switch_after_exit>(); run<msm::active_state_switch_after_transition_action>();
   run_regions();
+  run_numbering();
   return finish();
 }
